@@ -1,7 +1,12 @@
+import Rp2.Props.Tables.Sheets
 import Rp2.Proofs.ReportProps
 /-! # C14 — tax report lists every fraction once, on the sheet of its transaction type -/
 namespace Rp2.C14
 open Rp2
 theorem each_fraction_one_row_no_overwrite (idx : String → Nat) (ss : List String) :
     (route idx ss).length = ss.length ∧ (route idx ss).map (·.1) = ss ∧ (route idx ss).Nodup := C14_routing idx ss
+/-- tie: the US and IE type-to-sheet maps of the source are the model's `sheetOf`, which is the table the property prescribes -/
+theorem us_map : Gen.typeToSheetUS = Tables.modelSheets := Tables.sheets_us
+theorem ie_map : Gen.typeToSheetIE = Tables.modelSheets := Tables.sheets_ie
+theorem map_is_the_propertys : Tables.modelSheets = Tables.propertySheets := Tables.model_sheets_are_the_propertys
 end Rp2.C14
